@@ -110,6 +110,20 @@ func C11() int {
 			wf(filepath.Join(dir, "real.key"), "", 0o600)
 			os.Symlink(filepath.Join(dir, "real.key"), kp)
 		}},
+		// what other tools or earlier runs left next to the key path: the new key file is owner-only all the same
+		{"absent+stale-siblings(.tmp,~,.bak mode 0644)", "absent", func(dir, kp, key string) {
+			for _, suf := range []string{".tmp", "~", ".bak", ".new", ".lock"} {
+				wf(kp+suf, "stale "+suf, 0o644)
+			}
+			wf(filepath.Join(filepath.Dir(kp), "."+filepath.Base(kp)+".swp"), "stale swp", 0o666)
+		}},
+		// exists but is not a regular file: a character device (reads as empty) — directly and through a symlink
+		{"dev-null", "unusable", func(dir, kp, key string) {}},
+		{"symlink-to-dev-null", "unusable", func(dir, kp, key string) { os.Symlink("/dev/null", kp) }},
+		// no path at all: --encrypt cannot store or load a key
+		{"empty-key-path", "unusable", func(dir, kp, key string) {}},
+		// the key path is also named as the output file: a valid key must survive byte for byte
+		{"valid+also-the-output-path", "unusable", func(dir, kp, key string) { wf(kp, key, 0o600) }},
 		{"parent-missing", "absent-unwritable", func(dir, kp, key string) {}},
 		{"parent-is-a-file", "absent-unwritable", func(dir, kp, key string) {}},
 	}
@@ -156,6 +170,10 @@ func C11() int {
 		case "parent-is-a-file":
 			os.WriteFile(filepath.Join(dir, "plainfile"), []byte("x"), 0o644)
 			kp = filepath.Join(dir, "plainfile", "enc.key")
+		case "dev-null":
+			kp = "/dev/null"
+		case "empty-key-path":
+			kp = ""
 		}
 		jb.st.prep(dir, kp, validKey)
 		class := jb.st.class
@@ -173,6 +191,10 @@ func C11() int {
 			}
 			inp := filepath.Join(dir, fmt.Sprintf("in%d.log", ri))
 			outp := filepath.Join(dir, fmt.Sprintf("out%d.log", ri))
+			keyIsOutput := jb.st.name == "valid+also-the-output-path"
+			if keyIsOutput {
+				outp = kp
+			}
 			os.WriteFile(inp, []byte(strings.Join(inputs[inName], "\n")+"\n"), 0o644)
 			run := sut.Run{Args: append(append([]string{"redact", "--encrypt", "-q", kp}, extra...), "-o", outp, inp), Dir: dir}
 			stlog := filepath.Join(dir, fmt.Sprintf("strace%d.log", ri))
@@ -191,6 +213,9 @@ func C11() int {
 			after := c11Take(kp)
 			out, _ := os.ReadFile(outp)
 			outLines := splitLines(out)
+			if keyIsOutput {
+				outLines = nil // the "output file" is the key file; what matters is that it is untouched
+			}
 			c.Count("runs", 1)
 			c.Eval(fmt.Sprintf("%s|run%d", label, ri))
 			if ri == len(jb.seq)-1 && len(jb.seq) == 3 {
